@@ -277,9 +277,12 @@ def i_JAL(ins, fmap):
 
 def i_JALR(ins, fmap):
     dst, src1, imm = ins.operands
+    # the target is computed before the link register is written (they may
+    # be the same register) and its least-significant bit is cleared:
+    target = fmap((src1 + imm) & ~1)
     if dst is not zero:
         fmap[dst] = fmap(pc + ins.length)
-    fmap[pc] = fmap(src1 + imm)
+    fmap[pc] = target
 
 
 def i_BEQ(ins, fmap):
